@@ -16,4 +16,10 @@ GenNext == \/ TopFail
            \/ Exit
            \/ Cancel
 GenSpec == Init /\ [][GenNext]_vars
+\* state constraint of the "hand-over" generator: tx 1 writes account x, tx 2 declares a write lock on x but never touches
+\* it (its Commit has to wait for tx 1 before x is handed on), tx 3 reads x
+HandOverShape ==
+  /\ (disp >= 1 => (prog[1].world = "N" /\ prog[1].lock["x"] = "W" /\ prog[1].ops = << <<"w", "x">> >>))
+  /\ (disp >= 2 => (prog[2].world = "N" /\ prog[2].lock["x"] = "W" /\ prog[2].ops = <<>>))
+  /\ (disp >= 3 => (prog[3].world = "N" /\ prog[3].lock["x"] # "N" /\ prog[3].ops = << <<"r", "x">> >>))
 ====
